@@ -22,6 +22,45 @@ namespace vf { namespace c08 {
 namespace ds = datasketches;
 
 // ------------------------------------------------------------------------------------------------
+// item type of the sketches under test.  The model side always works with float values (small non-negative integers);
+// enc() maps a model value to the sketch's item type and dec() back (a retained item that is no valid encoding decodes
+// to -1e9, which is never an input).  Order of the encoded items == numeric order.
+#if defined(C08_ITEM_STRING)
+typedef std::string Item;                       // "k%07d": fixed width, so lexicographic order == numeric order
+inline Item enc(float x) { char b[24]; snprintf(b, sizeof b, "k%07d", static_cast<int>(x)); return Item(b); }
+inline float dec(const Item& s) {
+  if (s.size() != 8 || s[0] != 'k') return -1e9f;
+  int v = 0;
+  for (size_t i = 1; i < 8; ++i) { if (s[i] < '0' || s[i] > '9') return -1e9f; v = v * 10 + (s[i] - '0'); }
+  return static_cast<float>(v);
+}
+inline const char* item_tag() { return "-string"; }
+#define C08_ITEM_NONARITH 1
+#elif defined(C08_ITEM_SELFMOVE)
+// a type whose self-move-assignment is not the identity (like a container that releases its own state first) and whose
+// moved-from state is poisoned: a sketch must never retain either
+struct Item {
+  float v;
+  Item(): v(-7e8f) {}
+  explicit Item(float x): v(x) {}
+  Item(const Item&) = default;
+  Item(Item&& o) noexcept : v(o.v) { o.v = -9e8f; }
+  Item& operator=(const Item&) = default;
+  Item& operator=(Item&& o) noexcept { v = -8e8f; const float t = o.v; o.v = -9e8f; v = t; return *this; }
+  bool operator<(const Item& o) const { return v < o.v; }
+};
+inline Item enc(float x) { return Item(x); }
+inline float dec(const Item& s) { return (s.v >= 0 && s.v < 1e8f) ? s.v : -1e9f; }
+inline const char* item_tag() { return "-selfmove"; }
+#define C08_ITEM_NONARITH 1
+#else
+typedef float Item;
+inline Item enc(float x) { return x; }
+inline float dec(const Item& x) { return x; }
+inline const char* item_tag() { return ""; }
+#endif
+
+// ------------------------------------------------------------------------------------------------
 // scripted coin
 struct Script {
   uint64_t bits = 0;     // outcome sequence: flip i returns bit i
@@ -161,23 +200,24 @@ bool queries_match_fresh_view(const SK& s, std::string& why) {
   if (s.is_empty()) return true;
   auto v = s.get_sorted_view();
   std::vector<float> items;
-  for (auto it = v.begin(); it != v.end(); ++it) { const float x = (*it).first; if (items.empty() || items.back() != x) items.push_back(x); }
+  for (auto it = v.begin(); it != v.end(); ++it) { const float x = dec((*it).first); if (items.empty() || items.back() != x) items.push_back(x); }
   std::vector<float> probes;
   const size_t step = std::max<size_t>(1, items.size() / 6);
   for (size_t i = 0; i < items.size(); i += step) probes.push_back(items[i]);
   if (probes.back() != items.back()) probes.push_back(items.back());
   for (float x : probes) for (int incl = 0; incl < 2; ++incl) {
-    const double a = s.get_rank(x, incl == 1), b = v.get_rank(x, incl == 1);
+    const double a = s.get_rank(enc(x), incl == 1), b = v.get_rank(enc(x), incl == 1);
     if (std::fabs(a - b) > 1e-12) { why = "get_rank(" + str(x) + (incl ? ",inclusive)=" : ",exclusive)=") + str(a) + " but fresh sorted view gives " + str(b) + " (get_n=" + std::to_string(s.get_n()) + ")"; return false; }
   }
   static const double ranks[5] = {0.0, 0.1, 0.5, 0.9, 1.0};
   for (double rk : ranks) for (int incl = 0; incl < 2; ++incl) {
-    const float a = s.get_quantile(rk, incl == 1), b = v.get_quantile(rk, incl == 1);
+    const float a = dec(s.get_quantile(rk, incl == 1)), b = dec(v.get_quantile(rk, incl == 1));
     if (a != b) { why = "get_quantile(" + str(rk) + (incl ? ",inclusive)=" : ",exclusive)=") + str(a) + " but fresh sorted view gives " + str(b); return false; }
   }
+  std::vector<Item> iprobes; for (float x : probes) iprobes.push_back(enc(x));
   for (int incl = 0; incl < 2; ++incl) {
-    auto c1 = s.get_CDF(probes.data(), static_cast<uint32_t>(probes.size()), incl == 1); auto c2 = v.get_CDF(probes.data(), static_cast<uint32_t>(probes.size()), incl == 1);
-    auto p1 = s.get_PMF(probes.data(), static_cast<uint32_t>(probes.size()), incl == 1); auto p2 = v.get_PMF(probes.data(), static_cast<uint32_t>(probes.size()), incl == 1);
+    auto c1 = s.get_CDF(iprobes.data(), static_cast<uint32_t>(iprobes.size()), incl == 1); auto c2 = v.get_CDF(iprobes.data(), static_cast<uint32_t>(iprobes.size()), incl == 1);
+    auto p1 = s.get_PMF(iprobes.data(), static_cast<uint32_t>(iprobes.size()), incl == 1); auto p2 = v.get_PMF(iprobes.data(), static_cast<uint32_t>(iprobes.size()), incl == 1);
     if (c1.size() != c2.size() || p1.size() != p2.size()) { why = "get_CDF/get_PMF size differs from fresh sorted view"; return false; }
     for (size_t i = 0; i < c1.size(); ++i) if (std::fabs(c1[i] - c2[i]) > 1e-12) { why = "get_CDF[" + std::to_string(i) + "]=" + str(c1[i]) + " but fresh sorted view gives " + str(c2[i]); return false; }
     for (size_t i = 0; i < p1.size(); ++i) if (std::fabs(p1[i] - p2[i]) > 1e-12) { why = "get_PMF[" + std::to_string(i) + "]=" + str(p1[i]) + " but fresh sorted view gives " + str(p2[i]); return false; }
@@ -213,7 +253,7 @@ std::unique_ptr<typename Fam::SK> execute(const Scenario& sc, ExecInfo& info) {
         SK& s = *pool[o.a];
         const uint32_t before = s.get_num_retained();
         const uint64_t c0 = coin.calls;
-        s.update(o.v);
+        s.update(enc(o.v));
         if (s.get_num_retained() <= before && coin.calls == c0) info.silent_compactions++;
         break;
       }
@@ -223,12 +263,12 @@ std::unique_ptr<typename Fam::SK> execute(const Scenario& sc, ExecInfo& info) {
         SK& s = *pool[o.a];
         if (s.is_empty()) break;
         if (o.b == 3) { std::string why; if (!queries_match_fresh_view(s, why)) { if (!info.stale_queries) info.stale_why = why; info.stale_queries++; } info.query_checks++; }
-        if (o.b == 1) { volatile double x = s.get_rank(o.v, true); (void)x; }
-        else if (o.b == 2) { volatile float x = s.get_quantile(0.5); (void)x; }
+        if (o.b == 1) { volatile double x = s.get_rank(enc(o.v), true); (void)x; }
+        else if (o.b == 2) { volatile float x = dec(s.get_quantile(0.5)); (void)x; }
         else if (o.b == 0 || o.b == 3) {
           auto v = s.get_sorted_view();
           bool ok = true, first = true; float prev = 0; uint64_t total = 0;
-          for (auto it = v.begin(); it != v.end(); ++it) { const float x = (*it).first; if (!first && x < prev) ok = false; first = false; prev = x; total = (*it).second; }
+          for (auto it = v.begin(); it != v.end(); ++it) { const float x = dec((*it).first); if (!first && x < prev) ok = false; first = false; prev = x; total = (*it).second; }
           if (!ok || total != s.get_n()) info.bad_views++;
           info.views_checked++;
         }
@@ -332,10 +372,11 @@ void run_exhaustive(const Scenario& sc, unsigned f_expected) {
     size_t j = 0;      // next distinct value whose w_ex is not fixed yet
     size_t ji = 0;     // next distinct value whose w_in is not fixed yet
     uint64_t cum_prev = 0, total = 0;
-    bool order_ok = true; float prev_item = 0; bool first = true;
+    bool order_ok = true; float prev_item = 0; bool first = true; bool all_inputs = true; float stranger = 0;
     for (auto it = view.begin(); it != view.end(); ++it) {
-      const float item = (*it).first;
+      const float item = dec((*it).first);
       const uint64_t cum = (*it).second;
+      if (!std::binary_search(dv.begin(), dv.end(), item)) { if (all_inputs) stranger = item; all_inputs = false; }
       if (!first && item < prev_item) order_ok = false;
       first = false; prev_item = item;
       // weight strictly below dv[j] is known when the first entry >= dv[j] is met; weight at-or-below dv[ji]
@@ -347,6 +388,13 @@ void run_exhaustive(const Scenario& sc, unsigned f_expected) {
     while (j < nd) { w_ex[j] = total; ++j; }
     while (ji < nd) { w_in[ji] = total; ++ji; }
     VF_CHECK(order_ok, kp + "sorted-view-not-sorted", ctx + " outcome=" + std::to_string(o));
+    if (!all_inputs) {
+      checked();
+      fail(kp + "retained-item-not-an-input", ctx + " outcome=" + std::to_string(o) + " the sorted view contains an item that was never given to any sketch of the scenario (decoded " +
+           str(stranger) + "; -1e9 = not a valid encoding, e.g. emptied/poisoned by a move) program=" + program_text(sc));
+      return;
+    }
+    checked();
     if (total != n) {
       checked();
       fail(kp + "total-weight-not-n", ctx + " outcome=" + std::to_string(o) + " total_weight=" + std::to_string(total) + " program=" + program_text(sc));
@@ -356,7 +404,7 @@ void run_exhaustive(const Scenario& sc, unsigned f_expected) {
     // the public rank estimate is the same integer weight / n
     if (o % rank_stride == 0 || o + 1 == outcomes) {
       for (size_t q = 0; q < nd; ++q) {
-        const double re = root->get_rank(dv[q], false), ri = root->get_rank(dv[q], true);
+        const double re = root->get_rank(enc(dv[q]), false), ri = root->get_rank(enc(dv[q]), true);
         const double we = static_cast<double>(w_ex[q]) / static_cast<double>(n), wi = static_cast<double>(w_in[q]) / static_cast<double>(n);
         if (std::fabs(re - we) > 1e-12 || std::fabs(ri - wi) > 1e-12) {
           fail(kp + "get_rank-differs-from-sorted-view-weight", ctx + " outcome=" + std::to_string(o) + " v=" + str(dv[q]) + " rank_excl=" + str(re) +
@@ -382,7 +430,7 @@ void run_exhaustive(const Scenario& sc, unsigned f_expected) {
       }
       for (const auto& e : exact_q) {
         const double tr = static_cast<double>(e.second ? atmost[e.first] : below[e.first]) / static_cast<double>(n);
-        const double est = root->get_rank(dv[e.first], e.second == 1);
+        const double est = root->get_rank(enc(dv[e.first]), e.second == 1);
         if (std::fabs(est - tr) > 1e-12) {
           fail(kp + "rank-not-exact-where-zero-error-is-published", ctx + " outcome=" + std::to_string(o) + " v=" + str(dv[e.first]) + (e.second ? " inclusive" : " exclusive") +
                " true_rank=" + str(tr) + " (" + std::to_string(e.second ? atmost[e.first] : below[e.first]) + "/" + std::to_string(n) + ") get_rank=" + str(est) +
@@ -558,17 +606,17 @@ std::unique_ptr<typename Fam::SK> feed(const Cell& c, const std::vector<float>& 
   typedef typename Fam::SK SK;
   if (c.merge == 0) {
     std::unique_ptr<SK> s(new SK(Fam::make(c.cfg)));
-    for (float v : stream) s->update(v);
+    for (float v : stream) s->update(enc(v));
     return s;
   }
   if (c.merge == 3) {
     // an older sketch (first 1/21 of the stream) is merged into a FRESH one, which is queried and then receives the long rest
     std::unique_ptr<SK> old_sk(new SK(Fam::make(c.cfg))), s(new SK(Fam::make(c.cfg)));
     const size_t n0 = stream.size() / 21;
-    for (size_t j = 0; j < n0; ++j) old_sk->update(stream[j]);
+    for (size_t j = 0; j < n0; ++j) old_sk->update(enc(stream[j]));
     s->merge(*old_sk);
-    { volatile double x = s->get_rank(stream[0], true); (void)x; }
-    for (size_t j = n0; j < stream.size(); ++j) s->update(stream[j]);
+    { volatile double x = s->get_rank(enc(stream[0]), true); (void)x; }
+    for (size_t j = n0; j < stream.size(); ++j) s->update(enc(stream[j]));
     return s;
   }
   static const double cut_default[5] = {0.0, 0.4, 0.7, 0.9, 1.0};
@@ -585,11 +633,11 @@ std::unique_ptr<typename Fam::SK> feed(const Cell& c, const std::vector<float>& 
   std::unique_ptr<SK> p[4];
   for (int i = 0; i < 4; ++i) {
     p[i].reset(new SK(Fam::make(c.merge == 2 ? Fam::mixed_cfg(c.cfg, i) : c.cfg)));
-    for (size_t j = bound[i]; j < bound[i + 1]; ++j) p[i]->update(stream[j]);
+    for (size_t j = bound[i]; j < bound[i + 1]; ++j) p[i]->update(enc(stream[j]));
   }
   // the destinations are queried right before each merge (as a monitoring loop does): the query sorts level 0 / the base
   // buffer as a side effect and the merge must not rely on that state afterwards
-  const float probe = stream[stream.size() / 2];
+  const Item probe = enc(stream[stream.size() / 2]);
   if (!p[0]->is_empty()) { volatile double x = p[0]->get_rank(probe, true); (void)x; }
   p[0]->merge(*p[1]);
   if (!p[2]->is_empty()) { volatile double x = p[2]->get_rank(probe, true); (void)x; }
@@ -601,11 +649,12 @@ std::unique_ptr<typename Fam::SK> feed(const Cell& c, const std::vector<float>& 
 
 // the sorted view of a sketch must be ascending and carry total weight n
 template<typename SK>
-bool sorted_view_consistent(const SK& s, uint64_t n, std::string& why) {
+bool sorted_view_consistent(const SK& s, uint64_t n, std::string& why, const std::vector<float>* inputs = nullptr) {   // inputs: ascending distinct input values
   auto v = s.get_sorted_view();
   bool first = true; float prev = 0; uint64_t total = 0, prev_cum = 0; size_t pos = 0;
   for (auto it = v.begin(); it != v.end(); ++it, ++pos) {
-    const float x = (*it).first; const uint64_t cum = (*it).second;
+    const float x = dec((*it).first); const uint64_t cum = (*it).second;
+    if (inputs && !std::binary_search(inputs->begin(), inputs->end(), x)) { why = "retained item at position " + std::to_string(pos) + " (decoded " + str(x) + ") was never an input"; return false; }
     if (!first && x < prev) { why = "item " + str(x) + " at position " + std::to_string(pos) + " follows " + str(prev); return false; }
     if (cum <= prev_cum) { why = "cumulative weight not increasing at position " + std::to_string(pos); return false; }
     first = false; prev = x; prev_cum = cum; total = cum;
@@ -650,8 +699,8 @@ void sampled_cell_eps(const Cell& c, Rng& r) {
   std::vector<size_t> grid;
   for (int i = 0; i < 200; ++i) { const size_t q = value_at_rank(t, (i + 0.5) / 200.0); if (grid.empty() || grid.back() != q) grid.push_back(q); }
   // PMF split points: every 10th grid point (about 20 splits -> bins of about 5% mass)
-  std::vector<float> splits; std::vector<size_t> split_q;
-  for (size_t i = 4; i < grid.size(); i += 10) { splits.push_back(t.dv[grid[i]]); split_q.push_back(grid[i]); }
+  std::vector<Item> splits; std::vector<size_t> split_q;
+  for (size_t i = 4; i < grid.size(); i += 10) { splits.push_back(enc(t.dv[grid[i]])); split_q.push_back(grid[i]); }
   std::vector<size_t> zq; for (size_t i = 0; i < grid.size(); i += std::max<size_t>(1, grid.size() / 20)) zq.push_back(grid[i]);
   std::vector<Welford> zacc(zq.size());
   uint64_t ok1 = 0, ok2 = 0;
@@ -666,7 +715,8 @@ void sampled_cell_eps(const Cell& c, Rng& r) {
     const bool round_chunks = (trial & 1) == 1;   // odd trials: merge sources with lengths that are multiples of the family's buffer quantum
     std::unique_ptr<SK> sk = feed<Fam>(c, stream, round_chunks);
     VF_CHECK(sk->get_n() == c.n, kp + "n-not-true-n", ctx + " get_n=" + std::to_string(sk->get_n()));
-    { std::string why; const bool vok = sorted_view_consistent(*sk, c.n, why); VF_CHECK(vok, kp + "sorted-view-not-sorted", ctx + " trial=" + std::to_string(trial) + " " + why); }
+    { std::string why; const bool vok = sorted_view_consistent(*sk, c.n, why, &t.dv);
+      VF_CHECK(vok, kp + (why.find("never an input") != std::string::npos ? "retained-item-not-an-input" : "sorted-view-not-sorted"), ctx + " trial=" + std::to_string(trial) + " " + why); }
     { std::string why; const bool qok = queries_match_fresh_view(*sk, why); VF_CHECK(qok, kp + "query-answer-differs-from-current-sorted-view", ctx + " trial=" + std::to_string(trial) + (round_chunks ? " (quantised merge sources) " : " ") + why); }
     if (round_chunks && c.merge && Fam::chunk_quantum(c.cfg) > 0) count(fam + "_smp_trials_sources_with_empty_base_buffer");
     eps1 = sk->get_normalized_rank_error(false);
@@ -674,11 +724,11 @@ void sampled_cell_eps(const Cell& c, Rng& r) {
     double maxerr = 0;
     for (size_t q : grid) {
       for (int incl = 0; incl < 2; ++incl) {
-        const double e = std::fabs(sk->get_rank(t.dv[q], incl == 1) - t.rank(q, incl == 1));
+        const double e = std::fabs(sk->get_rank(enc(t.dv[q]), incl == 1) - t.rank(q, incl == 1));
         if (e > maxerr) maxerr = e;
       }
     }
-    for (size_t i = 0; i < zq.size(); ++i) zacc[i].add(sk->get_rank(t.dv[zq[i]], true));
+    for (size_t i = 0; i < zq.size(); ++i) zacc[i].add(sk->get_rank(enc(t.dv[zq[i]]), true));
     // PMF (exclusive criterion: bin i = mass in [split[i-1], split[i]))
     double maxpmf = 0;
     if (!splits.empty()) {
